@@ -1,1 +1,1 @@
-def wedgeScaleBeforeRotTilt : Bool := true
+def wedgeScaleBeforeRotTilt : Bool := false
